@@ -22,7 +22,7 @@ def dispatch(pid, tier):
     from . import layout, graph, vft, inherit, enums
     table = {
         "C04": lambda: vft.run_vft("C04", tier),
-        "C16": lambda: vft.run_vft("C16", tier),
+        "C16": lambda: vft.run_c16(tier),
         "C06": lambda: inherit.run_inherit("C06", tier),
         "C07": lambda: inherit.run_inherit("C07", tier),
         "C08": lambda: enums.run_enum("C08", tier),
